@@ -1,0 +1,6 @@
+//go:build !verif
+// +build !verif
+
+package ipfscluster
+
+func verifGate(point string) {}
